@@ -108,11 +108,50 @@ def same_line_family(tier):
                     yield base, l, r, 'src%d:line%d:%d/%d' % (si, i, a, b), (reps[a], reps[b])
 
 
+def multi_line_family(tier):
+    """Both sides rewrite the same TWO lines (i < j) of a longer cell differently: near lines give one conflict hunk, distant
+    lines give several hunks (external renderers report the number of hunks in their exit status)."""
+    S = U.seeds()
+    n = 12 if tier == 'quick' else 16
+    for unterminated in (False, True):
+        Ls = ['line %02d of a longer cell\n' % k for k in range(n)]
+        if unterminated:
+            Ls[-1] = Ls[-1].rstrip('\n')
+        base = copy.deepcopy(S['S45'])
+        base['cells'][0]['source'] = ''.join(Ls)
+        for i in range(n):
+            for j in range(i + 1, n):
+                if tier == 'quick' and (j - i) not in (1, 2, 5, 9, n - 1):
+                    continue
+                l = copy.deepcopy(base)
+                r = copy.deepcopy(base)
+
+                def rewrite(tag):
+                    out = list(Ls)
+                    for k in (i, j):
+                        term = '\n' if out[k].endswith('\n') else ''
+                        out[k] = '%s rewrite of line %02d%s' % (tag, k, term)
+                    return ''.join(out)
+                l['cells'][0]['source'] = rewrite('LOCAL')
+                r['cells'][0]['source'] = rewrite('REMOTE')
+                yield base, l, r, 'two-lines:%d,%d%s' % (i, j, ':unterminated' if unterminated else ''), ('LOCAL rewrite of line %02d' % i, 'REMOTE rewrite of line %02d' % i), \
+                    ('LOCAL rewrite of line %02d' % j, 'REMOTE rewrite of line %02d' % j)
+
+
 _G = {}
 
 
 def _shard(sh, ctx):
     M.install_observers()
+    if sh[0] == 'twolines':
+        _, ts, lo, hi = sh
+        for idx, (B, L, R, label, var1, var2) in enumerate(_G['twolines']):
+            if lo <= idx < hi:
+                out = M.run_merge(B, L, R, M.DEFAULT, ts)
+                check(ctx, B, L, R, ts, ('twolines', label + ':L', label + ':R'), out, variants=var1)
+                check(ctx, B, L, R, ts, ('twolines', label + ':L', label + ':R'), out, variants=var2)
+        M.drain_observations(ctx)
+        return
     if sh[0] == 'sameline':
         _, ts, lo, hi = sh
         for idx, (B, L, R, label, var) in enumerate(_G['sameline']):
@@ -179,6 +218,11 @@ def run(tier, seed):
     for ts in ('git', 'diff3', 'none'):
         for lo in range(0, n, 12):
             shards.append(('sameline', ts, lo, lo + 12))
+    _G['twolines'] = list(multi_line_family(tier))
+    info['two_line_family'] = len(_G['twolines'])
+    for ts in ('git', 'diff3', 'none'):
+        for lo in range(0, len(_G['twolines']), 10):
+            shards.append(('twolines', ts, lo, lo + 10))
     ctx = run_shards(_shard, shards, seed=seed, label=PROP)
     ev = ctx.counters['evaluations']
     return Result(
